@@ -158,3 +158,52 @@ func amplified(tag string) []genSchema {
 var apiLevels = []string{"API_OPEN", "API_HYBRID", "API_OPAQUE"}
 
 func levelTag(l string) string { return strings.ToLower(strings.TrimPrefix(l, "API_")) }
+
+// nestedSchemas: declarations nested three levels deep, followed by later
+// messages with their own nested declarations of every category (enum,
+// message, map entry, extension), so that the generator's flattened
+// declaration order matters.
+func nestedSchemas(tag string) []genSchema {
+	id := "nest" + tag
+	pkg := "verif.c41." + id
+	q := "." + pkg
+	opt := descriptorpb.FieldDescriptorProto_LABEL_OPTIONAL
+	rep := descriptorpb.FieldDescriptorProto_LABEL_REPEATED
+	fld := func(name string, num int32, t descriptorpb.FieldDescriptorProto_Type, l descriptorpb.FieldDescriptorProto_Label, tn string) *descriptorpb.FieldDescriptorProto {
+		f := &descriptorpb.FieldDescriptorProto{Name: proto.String(name), Number: proto.Int32(num), Type: t.Enum(), Label: l.Enum(), JsonName: proto.String(strs.JSONCamelCase(name))}
+		if tn != "" {
+			f.TypeName = proto.String(tn)
+		}
+		return f
+	}
+	enum := func(name, prefix string) *descriptorpb.EnumDescriptorProto {
+		return &descriptorpb.EnumDescriptorProto{Name: proto.String(name), Value: []*descriptorpb.EnumValueDescriptorProto{{Name: proto.String(prefix + "_ZERO"), Number: proto.Int32(0)}, {Name: proto.String(prefix + "_TWO"), Number: proto.Int32(2)}}}
+	}
+	entry := func(name, owner string, k, v descriptorpb.FieldDescriptorProto_Type, vt string) *descriptorpb.DescriptorProto {
+		return &descriptorpb.DescriptorProto{Name: proto.String(name), Options: &descriptorpb.MessageOptions{MapEntry: proto.Bool(true)}, Field: []*descriptorpb.FieldDescriptorProto{
+			fld("key", 1, k, opt, ""), fld("value", 2, v, opt, vt)}}
+	}
+	ext := func(name string, num int32, t descriptorpb.FieldDescriptorProto_Type) *descriptorpb.FieldDescriptorProto {
+		f := fld(name, num, t, opt, "")
+		f.Extendee = proto.String(q + ".Ext")
+		return f
+	}
+	str, i32, msgT, enT := descriptorpb.FieldDescriptorProto_TYPE_STRING, descriptorpb.FieldDescriptorProto_TYPE_INT32, descriptorpb.FieldDescriptorProto_TYPE_MESSAGE, descriptorpb.FieldDescriptorProto_TYPE_ENUM
+	x := &descriptorpb.DescriptorProto{Name: proto.String("X"),
+		EnumType:   []*descriptorpb.EnumDescriptorProto{enum("E", "E")},
+		NestedType: []*descriptorpb.DescriptorProto{{Name: proto.String("P"), Field: []*descriptorpb.FieldDescriptorProto{fld("v", 1, i32, opt, "")}}, entry("MEntry", "X", str, i32, "")},
+		Extension:  []*descriptorpb.FieldDescriptorProto{ext("xa", 100, i32)},
+		Field: []*descriptorpb.FieldDescriptorProto{fld("e", 1, enT, opt, q+".A.X.E"), fld("p", 2, msgT, opt, q+".A.X.P"), fld("m", 3, msgT, rep, q+".A.X.MEntry")}}
+	a := &descriptorpb.DescriptorProto{Name: proto.String("A"), NestedType: []*descriptorpb.DescriptorProto{x, {Name: proto.String("Y"), EnumType: []*descriptorpb.EnumDescriptorProto{enum("G", "G")}, Field: []*descriptorpb.FieldDescriptorProto{fld("g", 1, enT, opt, q+".A.Y.G")}}},
+		Field: []*descriptorpb.FieldDescriptorProto{fld("x", 1, msgT, opt, q+".A.X"), fld("y", 2, msgT, opt, q+".A.Y")}}
+	b := &descriptorpb.DescriptorProto{Name: proto.String("B"),
+		EnumType:   []*descriptorpb.EnumDescriptorProto{enum("F", "F")},
+		NestedType: []*descriptorpb.DescriptorProto{{Name: proto.String("Z"), Field: []*descriptorpb.FieldDescriptorProto{fld("s", 1, str, opt, "")}}, entry("MzEntry", "B", i32, msgT, q+".B.Z")},
+		Extension:  []*descriptorpb.FieldDescriptorProto{ext("xb", 101, str)},
+		Field: []*descriptorpb.FieldDescriptorProto{fld("f", 1, enT, opt, q+".B.F"), fld("z", 2, msgT, opt, q+".B.Z"), fld("mz", 3, msgT, rep, q+".B.MzEntry"), fld("ax", 4, msgT, opt, q+".A.X"), fld("ae", 5, enT, rep, q+".A.X.E")}}
+	e := &descriptorpb.DescriptorProto{Name: proto.String("Ext"), ExtensionRange: []*descriptorpb.DescriptorProto_ExtensionRange{{Start: proto.Int32(100), End: proto.Int32(200)}}}
+	fdp := &descriptorpb.FileDescriptorProto{Name: proto.String("verif/c41/" + id + ".proto"), Package: proto.String(pkg), MessageType: []*descriptorpb.DescriptorProto{a, b, e},
+		EnumType: []*descriptorpb.EnumDescriptorProto{enum("Top", "TOP")}, Extension: []*descriptorpb.FieldDescriptorProto{ext("xtop", 102, i32)}}
+	setGoPackage(fdp, id)
+	return []genSchema{{"three-level nesting with later nested declarations", fdp}}
+}
